@@ -83,7 +83,7 @@ def step (W : Nat → Option Nat) (st : DState) (line : String) : DState × Stri
     -- a new case: a new parser, and the snapshot slots are emptied (cases are self-contained)
     match r.toNat?, c.toNat?, sb.toNat? with
     | some r, some c, some sb =>
-      let cb := if cbn == "resize" then cbResize else cbNone
+      let cb := if cbn == "resize" then cbResize else if cbn == "probe" then cbProbe else cbNone
       match Parser.new r c sb with
       | .ok p => ({ st with parser := some p, cb := cb, evMark := 0, slots := Array.replicate 16 none }, "ok")
       | .error (.at n) => ({ st with parser := none, slots := Array.replicate 16 none }, s!"PANIC {n}")
@@ -92,7 +92,7 @@ def step (W : Nat → Option Nat) (st : DState) (line : String) : DState × Stri
     -- a new parser inside a case: the snapshots taken so far stay (pairs from independent histories)
     match r.toNat?, c.toNat?, sb.toNat? with
     | some r, some c, some sb =>
-      let cb := if cbn == "resize" then cbResize else cbNone
+      let cb := if cbn == "resize" then cbResize else if cbn == "probe" then cbProbe else cbNone
       match Parser.new r c sb with
       | .ok p => ({ st with parser := some p, cb := cb, evMark := 0 }, "ok")
       | .error (.at n) => ({ st with parser := none }, s!"PANIC {n}")
